@@ -80,7 +80,8 @@ def _check_encode(t: Tally, v: dict, data: bytes, reframed=True):
             import contextlib
             from mc.seams import ScriptedSocket
             sock = ScriptedSocket(bytes(p), lambda n, remaining, key, s_: min(n, remaining, 5 + (t.evals // 8) % 4), inspect=False)
-            with contextlib.redirect_stdout(io.StringIO()):
+            from mc.seams import WriteOnlyStream
+            with contextlib.redirect_stdout((io.StringIO(), WriteOnlyStream(), None)[(t.evals // 16) % 3]):
                 items, end = pull(pk.ccsds_generator(sock, show_progress=bool((t.evals // 8) % 2)), horizon=3)
         elif rot < 4:
             src = (bytes(p), p, io.BytesIO(bytes(p)), io.BytesIO(p))[rot]
